@@ -30,3 +30,11 @@ _stub("C20", "Decides structural clauses of C20: configuration schema agreement 
              "that parametrises them, per-configuration file namespace is injective. Does NOT decide that ufo2ft writes the "
              "info fields into the named binary tables.",
       "binary table contents (ufo2ft/fontTools)")
+
+_stub("C11", "Decides structural clauses of C11: the repository's (type, format) -> (coverage, parallel array) rule table equals a "
+             "specification table derived from fontTools otData.py (every coverage-bearing record of GDEF/GPOS/GSUB/MATH has a "
+             "rule, every coverage is paired with its own coverage-indexed array, attribute paths resolve in otData, glyph-sorted "
+             "inner lists have a ReorderList); the traversal visits all four containers and every subtable after setGlyphOrder; "
+             "the font is fully loaded before the order changes in the callee and at both callers; argument validation raises "
+             "before mutation. Does NOT decide the permutation arithmetic of _sort_by_gid or tables outside the four containers.",
+      "_sort_by_gid arithmetic (unit-tested); cmap/hmtx/glyf/COLR which fontTools keys by glyph name")
